@@ -121,7 +121,8 @@ def ceilings(ctx, f):
     want = T.ceildiv(rem, 4)
     n = 0
     for st in ast.walk(f.node):
-        if not (isinstance(st, ast.If) and isinstance(st.test, ast.Compare) and isinstance(st.test.ops[0], ast.Gt)):
+        if not (isinstance(st, ast.If) and isinstance(st.test, ast.Compare) and len(st.test.ops) == 1 and
+                isinstance(st.test.ops[0], (ast.Gt, ast.Lt))):
             continue
         body = [s for s in st.body if isinstance(s, ast.Assign)]
         other = [s for s in st.orelse if isinstance(s, ast.Assign)]
@@ -177,6 +178,10 @@ def ceilings(ctx, f):
             ctx.fail('C12.4', f, body[0], 'the number of 4-line units of a partial block is `%s` = %r for rem = 4q + r, but ceil(rem/4) = '
                      '%r: %s' % (U(e), v, want, 'one unit too many when rem is a multiple of 4 (a row is read from the next set / '
                                  'beyond the data)' if v == q + 1 else 'units are dropped or added'))
+        from .. import tables as TB_
+        fv = TB_.const_eval(ctx.P, f.module, other[0].value, f)
+        if fv is not None:
+            full = str(fv)
         if full != '16':
             ctx.fail('C12.4', f, other[0], 'a full 64-line block is %s units, not 16' % full)
     if n < 2:
